@@ -414,7 +414,7 @@ var rParams = []string{":id", ":name", ":x", ":y"}
 // every method with its own slot in routeMethods (router.go: the eleven standard ones), custom methods of the
 // anyOther map, and the RouteNotFound pseudo method (must stay last)
 var rMethods = []string{"GET", "POST", "PUT", "DELETE", "OPTIONS", "X-CUSTOM", "PROPFIND", "purge", "Baseline-Control",
-	"PATCH", "HEAD", "CONNECT", "TRACE", "REPORT", routeNotFound}
+	"PATCH", "HEAD", "CONNECT", "TRACE", "REPORT", "BATCH+JSON", "$SYNC~", "N!", routeNotFound}
 
 type rGenOpts struct {
 	escaped  bool // allow `\:` segments
